@@ -46,6 +46,7 @@ def lev_theory(src='source', tgt='target', free_start=False, longer_first=False,
         names = {fname: SpecFunc(lambda i, j: LEV(to_int(i), to_int(j)), fname, defn=lev_def)}
         # LEVD(a, b): the distance of the two sequences a, b as a caller sees it (see from_lists); inside the function it is
         # LEV at the full lengths of its own parameters
+        names['_S'], names['_T'] = S, T          # the two sequences as the theory reads them (after the argument swap, if any)
         names['NONE_SYMBOL'] = SpecFunc(lambda: SYM_NONE, 'NONE_SYMBOL')
         names['LEVD'] = SpecFunc(lambda a_, b_: LEV(to_int(S.shape[0]), to_int(T.shape[0])), 'LEVD')
         if free_start:
@@ -474,4 +475,177 @@ CONTRACTS[(ES_PATH, 'ErrorsSummary.from_lists')] = Contract(
              'result.nb_errors == LEVD(ref, hyp)',
              'result.nb_subs + result.nb_inss + result.nb_dels == result.nb_errors',
              'result.nb_subs >= 0 and result.nb_inss >= 0 and result.nb_dels >= 0'],
+)
+
+
+# ---------------------------------------------------------------------------------------------------
+# levenshtein_alignment_substring: Sellers' matrix with a backtrack certificate; the best end position is tracked in an extra
+# last column; the alignment = (walk back from the best end, leading source symbols free) ++ (trailing source symbols)
+
+def substr_align_theory(ex, st):
+    names, axioms = lev_theory(free_start=True, longer_first=True)(ex, st)
+    S, T = names['_S'], names['_T']
+    n, m = to_int(S.shape[0]), to_int(T.shape[0])
+    sub, ins, dele = [to_int(st.env[c]) for c in ('sub_cost', 'ins_cost', 'del_cost')]
+    E = st.env['empty_symbol']
+    LEV, LEVdef = names['LEV'].fn, names['LEV'].defn
+    fam_names, fam_axioms = pair_family(E, sub, ins, dele)
+    names.update(fam_names)
+    axioms += fam_axioms
+    fst, snd = PAIR.accs
+    SEG_S = z3.Function('SEG_S', z3.IntSort(), z3.IntSort(), SEQ_SYM)       # S[i:e]
+    SUF_T = z3.Function('SUF_T', z3.IntSort(), SEQ_SYM)                     # T[j:]
+    TRAIL = z3.Function('TRAIL', z3.IntSort(), SEQ_PAIR)                    # [(S[k], E) for k >= i]
+    LDEL = z3.Function('LDEL', SEQ_PAIR, z3.IntSort(), z3.BoolSort())      # the first k pairs have an empty second component
+    q = z3.Const('q', PAIR.sort)
+    sq = z3.Const('s', SEQ_PAIR)
+    k = z3.Int('k')
+    axioms += [
+        (['SUF_T'], SUF_T(m) == z3.Empty(SEQ_SYM)), (['TRAIL'], TRAIL(n) == z3.Empty(SEQ_PAIR)),
+        (['LDEL'], z3.ForAll([sq], LDEL(sq, 0), patterns=[LDEL(sq, 0)])),
+        (['LDEL'], z3.ForAll([q, sq, k], LDEL(z3.Concat(z3.Unit(q), sq), k) == z3.Or(k <= 0, z3.And(snd(q) == E, LDEL(sq, k - 1))),
+                             patterns=[LDEL(z3.Concat(z3.Unit(q), sq), k)])),
+    ]
+
+    def seg_def(i, e):
+        i, e = to_int(i), to_int(e)
+        return z3.And(z3.Implies(z3.And(i >= 0, i < e, e <= n), SEG_S(i, e) == z3.Concat(z3.Unit(S.get(i)), SEG_S(i + 1, e))),
+                      z3.Implies(i == e, SEG_S(i, e) == z3.Empty(SEQ_SYM)))
+
+    def trail_def(i):
+        i = to_int(i)
+        return z3.Implies(z3.And(i >= 0, i < n), TRAIL(i) == z3.Concat(z3.Unit(PAIR.mk(S.get(i), E)), TRAIL(i + 1)))
+    names.update({
+        'SEG_S': SpecFunc(lambda i, e: SeqVal(SEG_S(to_int(i), to_int(e)), SymCodec), 'SEG_S', defn=seg_def),
+        'SUF_T': SpecFunc(lambda i: SeqVal(SUF_T(to_int(i)), SymCodec), 'SUF_T', defn=lambda i: z3.Implies(
+            z3.And(to_int(i) >= 0, to_int(i) < m), SUF_T(to_int(i)) == z3.Concat(z3.Unit(T.get(to_int(i))), SUF_T(to_int(i) + 1)))),
+        'TRAIL': SpecFunc(lambda i: SeqVal(TRAIL(to_int(i)), PAIR), 'TRAIL', defn=trail_def),
+        'LDEL': SpecFunc(lambda a, kk: LDEL(a.s, to_int(kk)), 'LDEL'),
+    })
+
+    def neq(i, j):
+        return z3.If(S.get(i) != T.get(j), sub, z3.IntVal(0))
+
+    def bt_at(ex, st, i, j):
+        return ex.getitem(st.env['backtrack'], (i, j), st, None)
+
+    def CERTF(ex, st, i, j):
+        """backtrack[i, j] (j <= m) names a recurrence case that realises LEV(i, j); column 0 is the free start"""
+        i, j = to_int(i), to_int(j)
+        bt = bt_at(ex, st, i, j)
+        if ex.pending_defs:
+            ex.pending_defs[-1].extend([LEVdef(i, j), LEVdef(i - 1, j), LEVdef(i, j - 1), LEVdef(i - 1, j - 1)])
+        return z3.And(
+            z3.Or(bt == 1, bt == 0, bt == -1),
+            z3.Implies(j == 0, z3.And(i >= 1, bt == 1)),
+            z3.Implies(z3.And(j >= 1, bt == 1), z3.And(i >= 1, LEV(i, j) == LEV(i - 1, j) + dele)),
+            z3.Implies(bt == 0, z3.And(i >= 1, j >= 1, LEV(i, j) == LEV(i - 1, j - 1) + neq(i - 1, j - 1))),
+            z3.Implies(bt == -1, z3.And(j >= 1, LEV(i, j) == LEV(i, j - 1) + ins)))
+
+    def PRE(ex, st, i, j):
+        i, j = to_int(i), to_int(j)
+        if ex.pending_defs:
+            ex.pending_defs[-1].extend([LEVdef(i, j), LEVdef(i, j - 1)])
+        return imin(LEV(i, j) + dele, LEV(i, j - 1) + neq(i, j - 1))
+
+    def PREBT(ex, st, i, j):
+        i, j = to_int(i), to_int(j)
+        bt = bt_at(ex, st, i + 1, j)
+        if ex.pending_defs:
+            ex.pending_defs[-1].extend([LEVdef(i, j), LEVdef(i, j - 1)])
+        pre = imin(LEV(i, j) + dele, LEV(i, j - 1) + neq(i, j - 1))
+        return z3.And(z3.Or(bt == 0, bt == 1),
+                      z3.Implies(bt == 0, pre == LEV(i, j - 1) + neq(i, j - 1)),
+                      z3.Implies(bt == 1, pre == LEV(i, j) + dele))
+    BEST, BESTdef = names['BEST'].fn, names['BEST'].defn
+
+    def LASTC(ex, st, a):
+        """last column of row a >= 1: < 1 iff the best end position moved to row a, 1 (untouched) iff it stayed"""
+        a = to_int(a)
+        bt = bt_at(ex, st, a, m + 1)
+        if ex.pending_defs:
+            ex.pending_defs[-1].extend([BESTdef(a)])
+        return z3.And(z3.Or(bt == 1, bt == 0, bt == -1),
+                      z3.Implies(bt < 1, BEST(a) == LEV(a, m)), z3.Implies(bt > 0, BEST(a) == BEST(a - 1)))
+    names.update({'CERTF': CERTF, 'PRE': PRE, 'PREBT': PREBT, 'LASTC': LASTC})
+    return names, axioms
+
+
+# the dropped statements may be merged / inlined by a maintainer: each is dropped where present
+CONTRACTS[(ES_PATH, 'ErrorsSummary.from_lists')].replace_optional = ('match_types = ', 'ending_mistakes = ', 'for hyp_sym, ref_sym in alignment')
+
+_SN, _SM = 'len(source)', 'len(target)'
+_E = 'suffix_beginning - 1'
+SUB_DONE = ('forall(lambda a, b: implies(0 <= a and a <= %s and 0 <= b and b <= ' + _SM + ' and a + b > 0, CERTF(a, b)))')
+SUB_TODO = 'forall(lambda a, b: implies(%s < a and a <= ' + _SN + ' and 0 <= b and b <= ' + _SM + ' + 1, backtrack[a, b] == 1))'
+SUB_LAST = 'forall(lambda a: implies(1 <= a and a <= %s, LASTC(a)))'
+SUB_SHAPES = ['backtrack.shape[0] == ' + _SN + ' + 1', 'backtrack.shape[1] == ' + _SM + ' + 2', 'len(dist) == ' + _SM + ' + 2']
+
+CONTRACTS[(PATH, 'levenshtein_alignment_substring')] = Contract(
+    params={'source': 'seq:sym', 'target': 'seq:sym', 'sub_cost': 'int', 'ins_cost': 'int', 'del_cost': 'int', 'empty_symbol': 'sym'},
+    requires=COSTS + ['forall(lambda k: implies(0 <= k and k < len(source), source[k] != empty_symbol))',
+                      'forall(lambda k: implies(0 <= k and k < len(target), target[k] != empty_symbol))'],
+    theory=substr_align_theory, inline=['_as_symbol_array'], ghosts={'seqvars': {'alig': PAIR, 'mid': PAIR}},
+    ladder=LADDER,
+    ghost_at={
+        'alig = []': ['mid = alig', 'lead = 0', 'leadcost = 0'],
+        'alig.insert(0, (': [
+            # the step just taken, in terms of the recurrence (cut lemmas from the certificate of the cell that was read)
+            'assert where == 1 or where == 0 or where == -1',
+            'assert implies(where == 1 and tar_pos > 0, LEV(src_pos + 1, tar_pos) == LEV(src_pos, tar_pos) + del_cost)',
+            'assert implies(where == 1 and tar_pos == 0, LEV(src_pos + 1, tar_pos) == 0 and LEV(src_pos, tar_pos) == 0)',
+            'assert implies(where == 0, LEV(src_pos + 1, tar_pos + 1) == LEV(src_pos, tar_pos) + (sub_cost if source[src_pos] != target[tar_pos] else 0))',
+            'assert implies(where == -1, LEV(src_pos, tar_pos + 1) == LEV(src_pos, tar_pos) + ins_cost)',
+            'mid.insert(0, (empty_symbol if where < 0 else source[src_pos], empty_symbol if where > 0 else target[tar_pos]))',
+                             'lead = lead + (1 if (where > 0 and tar_pos == 0) else 0)',
+                             # what the lead free pairs would cost (kept as a running sum: lead * del_cost is non-linear)
+                             'leadcost = leadcost + (del_cost if (where > 0 and tar_pos == 0) else 0)'],
+    },
+    ghost_before={'backtrack = backtrack[:suffix_beginning, :-1]': [
+        'suffix_beginning = abstract(suffix_beginning)',       # a plain constant instead of the np.where(...)[0][-1] + 1 term
+        'assert 1 <= suffix_beginning and suffix_beginning <= ' + _SN + ' + 1',
+        'assert forall(lambda a: implies(' + _E + ' < a and a <= ' + _SN + ', BEST(a) == BEST(a - 1)))',
+        'assert BEST(' + _E + ') == LEV(' + _E + ', ' + _SM + ')'],
+        'alig = [(pair[1], pair[0]) for pair in alig]': ['pre_swap = alig']},
+    lemmas=[{'name': 'best-end-is-the-chosen-row', 'var': 'a', 'lo': _E, 'hi': _SN, 'direction': 'up',
+             'stmt': 'BEST(a) == LEV(' + _E + ', ' + _SM + ')'}],
+    ensures=[_SN + ' >= ' + _SM, '1 <= suffix_beginning and suffix_beginning <= ' + _SN + ' + 1',
+             'projS(mid) == SEG_S(0, ' + _E + ')', 'projT(mid) == SUF_T(0)',
+             'lead >= 0 and LDEL(mid, lead)',
+             # the cost of the alignment without its free leading part (lead pairs (s, E)) and without the free trailing part TRAIL
+             'cost(mid) - leadcost == BEST(' + _SN + ') and leadcost == lead * del_cost',
+             'implies(not swapped, result == mid + TRAIL(' + _E + '))',
+             # after the argument swap the pairs are turned round: result[k] == (b, a) for pre_swap[k] == (a, b)
+             '(pre_swap == mid + TRAIL(' + _E + ') and len(result) == len(pre_swap) and forall(lambda k: implies(0 <= k and k < len(result), '
+             'result[k][0] == pre_swap[k][1] and result[k][1] == pre_swap[k][0]))) if swapped else True'],
+
+    loops={
+        0: LoopSpec(counter='r', modifies={'backtrack': 'lambda a, b: 1 <= a and a <= r'}, inv=[
+            'forall(lambda j: implies(0 <= j and j <= ' + _SM + ', dist[j] == LEV(r, j)))',
+            'dist[' + _SM + ' + 1] == BEST(r)',
+            SUB_DONE % 'r', SUB_LAST % 'r', SUB_TODO % 'r', 'backtrack[0, ' + _SM + ' + 1] == -1']),
+        1: LoopSpec(counter='c', modifies={'backtrack': 'lambda a, b: a == r + 1 and b <= ' + _SM, 'dist': 'lambda j: j <= ' + _SM}, inv=[
+            'forall(lambda j: implies(0 <= j and j <= c, dist[j] == LEV(r + 1, j)))',
+            'forall(lambda j: implies(c < j and j <= ' + _SM + ', dist[j] == PRE(r, j)))',
+            'forall(lambda j: implies(0 <= j and j <= c, CERTF(r + 1, j)))',
+            'forall(lambda j: implies(c < j and j <= ' + _SM + ', PREBT(r, j)))']),
+        2: LoopSpec(counter='t', inv=['alig + TRAIL(' + _E + ' + t) == TRAIL(' + _E + ')']),
+        3: LoopSpec(counter='w', carry=[
+            'implies(swapped, len(target_0) > len(source_0)) and implies(not swapped, len(target_0) <= len(source_0))',
+            '1 <= suffix_beginning and suffix_beginning <= ' + _SN + ' + 1',
+            'forall(lambda a: implies(' + _E + ' < a and a <= ' + _SN + ', BEST(a) == BEST(a - 1)))',
+            'BEST(' + _E + ') == LEV(' + _E + ', ' + _SM + ')',
+            SUB_DONE % _E,
+            'alig == TRAIL(' + _E + ')'],
+            inv=[
+            ('src', '0 <= src_pos and src_pos <= ' + _E), ('tar', '0 <= tar_pos and tar_pos <= ' + _SM),
+            ('split', 'alig == mid + TRAIL(' + _E + ')'),
+            ('projS', 'projS(mid) == SEG_S(src_pos, ' + _E + ')'), ('projT', 'projT(mid) == SUF_T(tar_pos)'),
+            ('lead', 'lead >= 0 and implies(lead > 0, tar_pos == 0) and LDEL(mid, lead)'),
+            ('leadcost', 'leadcost == lead * del_cost'),
+            ('cost', 'cost(mid) + LEV(src_pos, tar_pos) == LEV(' + _E + ', ' + _SM + ') + leadcost')],
+            uses={'split': [], 'projS': ['src', 'tar'], 'projT': ['src', 'tar'], 'lead': ['src', 'tar'], 'leadcost': [],
+                  'cost': ['src', 'tar', 'lead']},
+            variant='src_pos + tar_pos'),
+    },
 )
